@@ -38,7 +38,11 @@ func NewPublicIPFetcher() *PublicIPFetcher {
 
 func (p *PublicIPFetcher) GetIP(ctx context.Context) (net.IP, error) {
 	myIP, err := cache.GetWithExpiration("source_public_ip", func() ([]byte, error) {
-		ip, err := GetPublicIP(ctx, p.client, p.backoffPolicy)
+		// backoff.ExponentialBackOff keeps its current interval as internal state and is not safe for
+		// concurrent use, while one fetcher serves every request of a Traceroute / Server value:
+		// each lookup retries on its own copy of the configured policy
+		backoffPolicy := *p.backoffPolicy
+		ip, err := GetPublicIP(ctx, p.client, &backoffPolicy)
 		log.Debugf("Public IP fetched: %s", ip.String())
 		if err != nil {
 			return nil, err
